@@ -490,15 +490,206 @@ def gen_header(rng, base, kids, form):
 # --------------------------------------------------------------------------
 # recording of what jwt.encode / jwt.decode hand to the transport
 # --------------------------------------------------------------------------
+# --------------------------------------------------------------------------
+# optional arguments: encoder / decoder classes, algorithms=, registry=
+# --------------------------------------------------------------------------
+import uuid, decimal
+
+
+class TrivialEncoder(json.JSONEncoder):
+    pass
+
+
+class RichEncoder(json.JSONEncoder):
+    """default() for UUID / Decimal / datetime"""
+
+    def default(self, o):
+        if isinstance(o, uuid.UUID):
+            return str(o)
+        if isinstance(o, decimal.Decimal):
+            return str(o)
+        if isinstance(o, datetime.datetime):
+            return o.isoformat()
+        return super().default(o)
+
+
+class TrivialDecoder(json.JSONDecoder):
+    pass
+
+
+class HookAddDecoder(json.JSONDecoder):
+    """object_hook that keeps objects objects (adds a member)"""
+
+    def __init__(self, **kw):
+        kw["object_hook"] = lambda d: {**d, "hooked": True}
+        super().__init__(**kw)
+
+
+class HookListDecoder(json.JSONDecoder):
+    """object_hook that turns every object into the list of its members"""
+
+    def __init__(self, **kw):
+        kw["object_hook"] = lambda d: [[k, v] for k, v in d.items()]
+        super().__init__(**kw)
+
+
+class HookNoneDecoder(json.JSONDecoder):
+    def __init__(self, **kw):
+        kw["object_hook"] = lambda d: None
+        super().__init__(**kw)
+
+
+class PairsStrDecoder(json.JSONDecoder):
+    """object_pairs_hook returning a str"""
+
+    def __init__(self, **kw):
+        kw["object_pairs_hook"] = lambda p: "obj:%d" % len(p)
+        super().__init__(**kw)
+
+
+class ParseFloatDecoder(json.JSONDecoder):
+    def __init__(self, **kw):
+        kw["parse_float"] = lambda s: "f:" + s
+        kw["parse_int"] = lambda s: int(s) if len(s) < 15 else "i:" + s
+        super().__init__(**kw)
+
+
+ENCODERS = [(None, None), (1, json.JSONEncoder), (2, TrivialEncoder), (3, RichEncoder)]
+STD_DECODERS = [(None, None), (1, json.JSONDecoder), (2, TrivialDecoder)]
+HOOK_DECODERS = [(3, HookAddDecoder), (4, HookListDecoder), (5, HookNoneDecoder), (6, PairsStrDecoder), (7, ParseFloatDecoder)]
+DECODERS = STD_DECODERS + HOOK_DECODERS
+
+
+def c_oN(i):
+    return "None" if i is None else "(Some %d%%N)" % i
+
+
+def obj_id(v):
+    import hashlib
+    return int(hashlib.sha256(repr(v).encode()).hexdigest()[:10], 16)
+
+
+def c_cval(v):
+    if isinstance(v, datetime.datetime):
+        return "(CDt %s)" % c_dt(v)
+    if isinstance(v, (uuid.UUID, decimal.Decimal)):
+        return "(CObj %d%%N)" % obj_id(v)
+    return "(CV %s)" % c_pv(v)
+
+
+def expected_after(c):
+    """The caller's claims dict after convert_claims, computed independently (None: some
+    NumericDate conversion leaves the datetime range, the loop stops half way)."""
+    out = {}
+    for k, v in c.items():
+        if isinstance(v, datetime.datetime) and k in ND_KEYS:
+            n = indep_numericdate(v)
+            if v.tzinfo is not None and not (MIN_SECS <= n <= MAX_SECS):
+                return None
+            out[k] = n
+        else:
+            out[k] = v
+    return out
+
+
+def own_loads(payload, dec_cls):
+    """json.loads(payload, cls=decoder_cls) -> (coq term of the result, ('ok', value) | ('err', e))"""
+    try:
+        v = json.loads(payload, cls=dec_cls)
+    except RecursionError as e:
+        return "(Err ERuntime)", ("err", e)
+    except ValueError as e:
+        return "(Err EValue)", ("err", e)
+    except TypeError as e:
+        return "(Err EType)", ("err", e)
+    return "(Ok %s)" % c_pv(v), ("ok", v)
+
+
+class Options:
+    """One choice of the optional arguments of jwt.encode / jwt.decode.
+    mode: 'reg' registry= only; 'algs' algorithms= (JWE: plus a plain JWERegistry() to select
+    the transport); 'both'; 'default' nothing (JWE: plain JWERegistry()); 'reg-nondefault'
+    registry with non-default settings (strict_check_header=False, JWE: verify_all_recipients=False)."""
+
+    def __init__(self, W, kind, base, mode, strict=True, positional=False):
+        algs = [base["alg"]] + ([base["enc"]] if "enc" in base else [])
+        self.kind, self.mode, self.positional = kind, mode, positional
+        self.algorithms, self.registry = None, None
+        if kind == "jws":
+            if mode in ("reg", "both"):
+                self.registry = W.JWSRegistry(algorithms=algs, strict_check_header=strict)
+            elif mode == "reg-nondefault":
+                self.registry = W.JWSRegistry(algorithms=algs, strict_check_header=False)
+            if mode in ("algs", "both"):
+                self.algorithms = list(algs)
+        else:
+            if mode == "reg":
+                self.registry = W.JWERegistry(algorithms=algs, strict_check_header=strict)
+            elif mode == "reg-nondefault":
+                self.registry = W.JWERegistry(algorithms=algs, strict_check_header=False, verify_all_recipients=False)
+            elif mode == "both":
+                self.registry = W.JWERegistry(algorithms=algs, strict_check_header=strict)
+            else:
+                self.registry = W.JWERegistry()
+            if mode in ("algs", "both"):
+                self.algorithms = list(algs)
+
+    def call_args(self, key, cls):
+        """-> (args, kwargs) after (header, claims) / (value,)"""
+        if self.positional:
+            return (key, self.algorithms, self.registry, cls), {}
+        kw = {}
+        if self.algorithms is not None:
+            kw["algorithms"] = self.algorithms
+        if self.registry is not None:
+            kw["registry"] = self.registry
+        if cls is not None:
+            kw["encoder_cls" if cls in [e for _, e in ENCODERS] else "decoder_cls"] = cls
+        return (key,), kw
+
+    def targs(self):
+        return self.targs_of(1, self.algorithms, self.registry, self.registry)
+
+    def targs_of(self, key_id, algs, reg, mine):
+        from joserfc.jwe import JWERegistry
+        a = "None" if algs is None else "(Some %s)" % c_list([c_str(x) for x in algs])
+        if reg is None:
+            r = "None"
+        else:
+            r = "(Some (%s, %d%%N))" % (c_bool(isinstance(reg, JWERegistry)), 1 if reg is mine else 2)
+        return "(mkta %d%%N %s %s)" % (key_id, a, r)
+
+
+def modes_for(W, kind, base, strict):
+    """the ways of passing algorithms / registry that are usable for this transport and header"""
+    algs = [base["alg"]] + ([base["enc"]] if "enc" in base else [])
+    if not strict:
+        return ["reg", "reg-nondefault"]
+    out = ["reg", "algs", "both", "reg-nondefault"]
+    rec = W.JWSRegistry.recommended if kind == "jws" else W.JWERegistry.recommended
+    if all(a in rec for a in algs):
+        out.append("default")
+    return out
+
+
 class Recorder:
     NAMES = ("serialize_compact", "encrypt_compact", "deserialize_compact", "decrypt_compact")
 
-    def __init__(self):
+    def __init__(self, key=None):
         from joserfc import jwt as J
         self.J = J
         self.real = {n: getattr(J, n) for n in self.NAMES}
         self.calls = []
-        self.caller_header = None
+        self.key = key
+
+    @staticmethod
+    def _args(a, kw, first):
+        names = (first, "algorithms", "registry")
+        vals = list(a[:3]) + [None] * (3 - len(a[:3]))
+        for i, n in enumerate(names):
+            if n in kw:
+                vals[i] = kw[n]
+        return vals
 
     def __enter__(self):
         J = self.J
@@ -507,8 +698,9 @@ class Recorder:
             real = self.real[name]
 
             def spy(protected, payload, *a, **kw):
-                rec = {"fn": name, "w_in": copy.deepcopy(protected), "payload": payload,
-                       "aliased": protected is self.caller_header}
+                k, algs, reg = self._args(a, kw, "private_key" if name == "serialize_compact" else "public_key")
+                rec = {"fn": name, "jwe": name == "encrypt_compact", "w_in": copy.deepcopy(protected), "payload": payload,
+                       "key_id": 1 if k is self.key else 2, "algs": copy.deepcopy(algs), "reg": reg}
                 self.calls.append(rec)
                 try:
                     out = real(protected, payload, *a, **kw)
@@ -525,7 +717,9 @@ class Recorder:
             real = self.real[name]
 
             def spy(value, *a, **kw):
-                rec = {"fn": name, "value": value}
+                k, algs, reg = self._args(a, kw, "public_key" if name == "deserialize_compact" else "private_key")
+                rec = {"fn": name, "jwe": name == "decrypt_compact", "value": value,
+                       "key_id": 1 if k is self.key else 2, "algs": copy.deepcopy(algs), "reg": reg}
                 self.calls.append(rec)
                 try:
                     obj = real(value, *a, **kw)
@@ -551,19 +745,6 @@ class Recorder:
         return c
 
 
-def loads_record(payload):
-    """What json.loads does with the payload (the json.loads oracle of the model)."""
-    try:
-        v = json.loads(payload)
-    except RecursionError:
-        return "(Err ERuntime)", None
-    except ValueError:
-        return "(Err EValue)", None
-    except TypeError:
-        return "(Err EType)", None
-    return "(Ok %s)" % c_pv(v), v
-
-
 # --------------------------------------------------------------------------
 # the run
 # --------------------------------------------------------------------------
@@ -574,125 +755,200 @@ def run(ctx):
     ok, log = ctx.prove(extra_targets=["model/C09Cases.vo"])
     rng = ctx.rng
     W = World(rng)
-    intern_pool([k.kid for ks in W.keys.values() for k in ks] + list(_strings_of([t[2] for t in W.transports])))
+    intern_pool([k.kid for ks in W.keys.values() for k in ks] + list(_strings_of([t[2] for t in W.transports])) +
+                ["hooked", "f:1.5", "obj:1", "obj:0", "obj:2"])
 
     cases, meta = [], []
     dist = {"encode_ok": 0, "encode_err": 0, "decode_ok": 0, "decode_err": 0, "convert": 0, "numericdate": 0,
             "non_object_payload": 0, "non_json_payload": 0, "ambiguous_payload": 0, "tampered": 0, "wrong_key": 0, "per_transport": {},
             "per_key_form": {}, "explicit_typ": 0, "keyset_kid_written": 0, "alg_added_members": 0,
-            "datetime_claims": 0, "contract_points_json": 0, "contract_points_transport": 0}
+            "datetime_claims": 0, "contract_points_json": 0, "contract_points_transport": 0,
+            "per_encoder_cls": {}, "per_decoder_cls": {}, "per_option_mode": {}, "positional_calls": 0,
+            "decoder_made_non_object": 0, "foreign_object_claims": 0}
 
     def add(term, m):
         cases.append(share(term))
         meta.append(m)
 
-    def descr(h, c, tname, form):
-        return {"header": repr(h), "claims": repr(c), "transport": tname, "key_form": form}
+    def bump(d, k):
+        dist[d][str(k)] = dist[d].get(str(k), 0) + 1
+
+    def json_equal_hdr(a, b):
+        return a.keys() == b.keys() and all(json_equal(a[k], b[k]) for k in a)
+
+    def tok_term(t):
+        return "(%s, %s)" % (c_hdr(t.header), c_pv(t.claims))
+
+    def same_value(a, b):
+        """equality of two decoder results (NaN-proof, type-strict)"""
+        try:
+            return c_pv(a) == c_pv(b)
+        except TypeError:
+            return False
+
+    # ------------------------------------------------------------ one jwt.decode call, checked in every respect
+    def checked_decode(tok, key, opts, dec, tname, what, payload_known=None, expect_transport_ok=None, rp=None, value=None):
+        """Runs jwt.decode(tok, key, <opts>, decoder_cls) with recording, emits the CDec case and applies the
+        direct oracle:  transport ok and the decoder's own result is a dict  ->  Token with exactly that dict;
+        transport ok otherwise -> InvalidPayloadError;  transport failed -> that error (never InvalidPayloadError)."""
+        dec_id, dec_cls = dec
+        kind = opts.kind
+        args, kw = opts.call_args(key, dec_cls)
+        with Recorder(key) as R:
+            d = call(jwt.decode, tok if value is None else value, *args, **kw)
+            dec_calls = R.take()
+        bump("per_decoder_cls", dec_id)
+        bump("per_option_mode", "decode:" + opts.mode)
+        dist["positional_calls"] += 1 if opts.positional else 0
+        rp = dict(rp or {}, decoder_cls=dec_id, option_mode=opts.mode, positional=opts.positional, transport=tname)
+        drec = dec_calls[0] if dec_calls else None
+        own = None
+        if drec is not None:
+            if drec["out"][0] == "ok":
+                dh, dp = drec["out"][1]
+                lterm, own = own_loads(dp, dec_cls)
+                tr_term = "(Some (%s, %s, Ok (%s, %s)))" % (c_bool(drec["jwe"]), opts.targs_of(drec["key_id"], drec["algs"], drec["reg"], opts.registry),
+                                                           c_hdr(dh), c_blob(dp))
+                loads_term = "(Some (%s, %s, %s))" % (c_oN(dec_id), c_blob(dp), lterm)
+            else:
+                tr_term = "(Some (%s, %s, Err %s))" % (c_bool(drec["jwe"]), opts.targs_of(drec["key_id"], drec["algs"], drec["reg"], opts.registry),
+                                                       c_exn(ecls(drec["out"][1])))
+                loads_term = "None"
+        else:
+            tr_term, loads_term = "None", "None"
+        add("CDec %s %s %s %s %s %s" % (c_blob(tok), opts.targs(), c_oN(dec_id), tr_term, loads_term, c_res(d, tok_term)),
+            ("decode-" + what, tname, "decoder_cls=%s" % dec_id, "mode=%s" % opts.mode))
+        # ---- direct oracle
+        if len(dec_calls) != 1:
+            ctx.violation({"kind": "correspondence", "fn": "decode"}, "jwt.decode called the transport %d times" % len(dec_calls),
+                          dict(rp, no_failing_input_found=True, broken="correspondence (transport recording)"))
+            return d, drec, own
+        if drec["out"][0] == "err":
+            if d[0] == "ok" or isinstance(d[1], InvalidPayloadError):
+                ctx.violation({"kind": "payload-parsed-before-integrity" if d[0] == "err" else "tampered-token-accepted",
+                               "transport_kind": kind},
+                              "jwt.decode (%s, %s, decoder_cls #%s) %s although the transport refused the token with %r" % (
+                                  tname, what, dec_id, "returned claims %r" % (d[1].claims,) if d[0] == "ok" else "raised InvalidPayloadError",
+                                  drec["out"][1]), rp)
+            return d, drec, own
+        if own[0] == "ok" and isinstance(own[1], dict):
+            if d[0] != "ok" or not isinstance(d[1].claims, dict) or not same_value(d[1].claims, own[1]):
+                ctx.violation({"kind": "object-payload-not-returned", "transport_kind": kind},
+                              "jwt.decode (%s, %s, decoder_cls #%s): the payload decodes to the object %r but the result is %r" % (
+                                  tname, what, dec_id, own[1], d[1].claims if d[0] == "ok" else d[1]), rp)
+        else:
+            if own[0] == "ok" and dec_id not in (None, 1, 2):
+                dist["decoder_made_non_object"] += 1
+            if not (d[0] == "err" and isinstance(d[1], InvalidPayloadError)):
+                desc = ("decodes to the non-object %r" % (own[1],)) if own[0] == "ok" else ("is not JSON (%r)" % (own[1],))
+                ctx.violation({"kind": "non-object-payload-accepted" if d[0] == "ok" else "invalid-payload-error-class",
+                               "payload_is_json": own[0] == "ok", "transport_kind": kind, "decoder_cls": "default" if dec_id is None else "given"},
+                              "jwt.decode (%s, %s, decoder_cls #%s, %s): the authenticated payload %r %s, but jwt.decode %s instead of raising InvalidPayloadError" % (
+                                  tname, what, dec_id, opts.mode, drec["out"][1][1][:60], desc,
+                                  "returned claims %r" % (d[1].claims,) if d[0] == "ok" else "raised %r" % (d[1],)), rp)
+        return d, drec, own
 
     # ---------------------------------------------------------------- encode / decode round trips
-    def one_roundtrip(tname, kind, base, fam, added, form, header, strict, claims, token_as_bytes, header_valid=True):
+    def one_roundtrip(tr_, form, header, strict, claims, token_as_bytes, enc, dec, mode, positional, header_valid=True):
+        tname, kind, base, fam, added = tr_
+        enc_id, enc_cls = enc
         key, kids = W.key_form(fam, form)
-        reg = W.registry(kind, base, strict)
+        opts = Options(W, kind, base, mode, strict, positional)
         h0 = copy.deepcopy(header)
         h0_items = list(h0.items())
-        c0 = dict(claims)                       # values are immutable or not touched; datetimes are immutable
+        c0 = dict(claims)                       # values are immutable
         c0_term = c_claims(claims)
         exp_claims = expected_claims(c0)
+        after = expected_after(c0)
         applies = exp_claims is not None and is_json_value(exp_claims)     # JSON-object claims: the property speaks
         rp = {"kind": "roundtrip", "transport": tname, "key_form": form, "header": repr(h0), "claims": repr(c0),
-              "strict": strict}
-        ctx.note_case(("rt", tname, form, repr(h0), repr(c0)))
-        dist["per_transport"][tname] = dist["per_transport"].get(tname, 0) + 1
-        dist["per_key_form"][form] = dist["per_key_form"].get(form, 0) + 1
+              "strict": strict, "encoder_cls": enc_id, "decoder_cls": dec[0], "option_mode": mode, "positional": positional}
+        ctx.note_case(("rt", tname, form, repr(h0), repr(c0), enc_id, dec[0], mode))
+        bump("per_transport", tname)
+        bump("per_key_form", form)
+        bump("per_encoder_cls", enc_id)
+        bump("per_option_mode", "encode:" + mode)
         if "typ" in h0:
             dist["explicit_typ"] += 1
         if any(isinstance(v, datetime.datetime) for v in c0.values()):
             dist["datetime_claims"] += 1
-        with Recorder() as R:
-            R.caller_header = header
-            kw = {"registry": reg}
-            r = call(jwt.encode, header, claims, key, **kw)
+        if any(isinstance(v, (uuid.UUID, decimal.Decimal)) for v in c0.values()):
+            dist["foreign_object_claims"] += 1
+        args, kw = opts.call_args(key, enc_cls)
+        with Recorder(key) as R:
+            r = call(jwt.encode, header, claims, *args, **kw)
             enc_calls = R.take()
-            # ---- direct: the caller's header object is untouched, whatever happened
-            if header != h0 or list(header.items()) != h0_items or not json_equal_hdr(header, h0):
-                ctx.violation({"kind": "header-mutated", "transport_kind": kind},
-                              "jwt.encode altered the caller's header: before %r, after %r (%s, %s)" % (h0, header, tname, form),
-                              rp)
-            # ---- records for the model
-            tr_term, dumps_term = "None", "None"
-            rec = enc_calls[0] if enc_calls else None
-            if len(enc_calls) > 1:
-                ctx.violation({"kind": "correspondence", "fn": "encode"}, "jwt.encode called the transport %d times" % len(enc_calls),
-                              dict(rp, no_failing_input_found=True, broken="correspondence (transport recording)"))
-            if rec is not None:
-                payload = rec["payload"]
-                pb = payload.encode("utf-8") if isinstance(payload, str) else bytes(payload)
-                tr_term = "(Some (%s, %s, %s, %s))" % (
-                    c_hdr(rec["w_in"]), c_blob(pb), c_res(rec["out"], c_blob), c_hdr(rec["w_after"]))
-                # json.dumps oracle point: expected converted claims -> the payload that reached the transport;
-                # its contract (json.loads inverts it) is checked right here
-                if applies:
-                    lr = call(json.loads, pb)
-                    dist["contract_points_json"] += 1
-                    if lr[0] != "ok" or not json_equal(lr[1], exp_claims):
-                        ctx.violation({"kind": "payload-not-claims", "transport_kind": kind},
-                                      "the payload handed to the transport is not a JSON serialization of the (converted) claims: "
-                                      "claims %r payload %r" % (c0, pb[:200]), rp)
-                if exp_claims is not None:
-                    dumps_term = "(Some (%s, Ok %s))" % (c_pv(exp_claims), c_blob(pb))
-            elif r[0] == "err" and exp_claims is not None:
-                # the transport was not reached: json.dumps / to_bytes raised
-                own = call(lambda: json.dumps(exp_claims, ensure_ascii=False, separators=(",", ":")).encode("utf-8"))
-                if own[0] == "err":
-                    dumps_term = "(Some (%s, Err %s))" % (c_pv_safe(exp_claims), c_exn(ecls(own[1])))
-            if dumps_term.startswith("(Some (None"):
-                dumps_term = "None"
-            c_after_term = c_claims(claims)
-            tok = r[1] if r[0] == "ok" else None
-            add("CEnc %s %s %s %s %s %s %s" % (
-                c_hdr(h0), c0_term, dumps_term, tr_term,
-                c_res(r, c_blob), c_hdr(header), c_after_term),
-                ("encode", tname, form, repr(h0), repr(c0)))
-            if r[0] != "ok":
-                dist["encode_err"] += 1
-                if applies and header_valid:
-                    ctx.violation({"kind": "encode-raises", "transport_kind": kind},
-                                  "jwt.encode raised %r for JSON-object claims %r, header %r (%s, %s)" % (r[1], c0, h0, tname, form), rp)
-                return
-            dist["encode_ok"] += 1
-            # ---- direct: claims object after the call (datetime exp/nbf/iat replaced in place, nothing else)
-            if applies and not (claims.keys() == exp_claims.keys() and all(json_equal(claims[k], exp_claims[k]) for k in claims)):
-                ctx.violation({"kind": "claims-after"}, "caller's claims after encode %r, expected %r" % (claims, exp_claims), rp)
-            # ---- decode
-            value = tok.encode("ascii") if token_as_bytes else tok
-            d = call(jwt.decode, value, key, **kw)
-            dec_calls = R.take()
-        drec = dec_calls[0] if dec_calls else None
-        if drec is not None:
-            tr_dec = c_res(drec["out"], lambda hp: "(%s, %s)" % (c_hdr(hp[0]), c_blob(hp[1])))
-            if drec["out"][0] == "ok":
-                lterm, _ = loads_record(drec["out"][1][1])
-                loads_term = "(Some (%s, %s))" % (c_blob(drec["out"][1][1]), lterm)
-            else:
-                loads_term = "None"
-        else:
-            tr_dec, loads_term = "(Err EOracleMiss)", "None"
-        add("CDec %s %s %s %s" % (c_blob(tok), tr_dec, loads_term,
-                                  c_res(d, lambda t: "(%s, %s)" % (c_hdr(t.header), c_pv(t.claims)))),
-            ("decode", tname, form, repr(h0), repr(c0)))
-        if d[0] != "ok":
+        # ---- direct: the caller's header object is untouched, whatever happened
+        if header != h0 or list(header.items()) != h0_items or not json_equal_hdr(header, h0):
+            ctx.violation({"kind": "header-mutated", "transport_kind": kind},
+                          "jwt.encode altered the caller's header: before %r, after %r (%s, %s, %s)" % (h0, header, tname, form, mode), rp)
+        # ---- records for the model
+        tr_term, dumps_term = "None", "None"
+        rec = enc_calls[0] if enc_calls else None
+        if len(enc_calls) > 1:
+            ctx.violation({"kind": "correspondence", "fn": "encode"}, "jwt.encode called the transport %d times" % len(enc_calls),
+                          dict(rp, no_failing_input_found=True, broken="correspondence (transport recording)"))
+        if rec is not None:
+            payload = rec["payload"]
+            pb = payload.encode("utf-8") if isinstance(payload, str) else bytes(payload)
+            tr_term = "(Some (%s, %s, %s, %s, %s, %s))" % (
+                c_bool(rec["jwe"]), c_hdr(rec["w_in"]), c_blob(pb),
+                opts.targs_of(rec["key_id"], rec["algs"], rec["reg"], opts.registry), c_res(rec["out"], c_blob), c_hdr(rec["w_after"]))
+            # json.dumps oracle point: converted claims -> the payload that reached the transport; its
+            # contract (json.loads inverts it on JSON-object claims) is checked right here
+            if applies:
+                lr = call(json.loads, pb)
+                dist["contract_points_json"] += 1
+                if lr[0] != "ok" or not json_equal(lr[1], exp_claims):
+                    ctx.violation({"kind": "payload-not-claims", "transport_kind": kind},
+                                  "the payload handed to the transport is not a JSON serialization of the (converted) claims: "
+                                  "claims %r payload %r (encoder_cls #%s)" % (c0, pb[:200], enc_id), rp)
+            if after is not None:
+                dumps_term = "(Some (%s, %s, Ok %s))" % (c_oN(enc_id), c_claims(after), c_blob(pb))
+        elif r[0] == "err" and after is not None:
+            # the transport was not reached: json.dumps / to_bytes raised
+            own = call(lambda: json.dumps(after, ensure_ascii=False, separators=(",", ":"), cls=enc_cls).encode("utf-8"))
+            if own[0] == "err":
+                dumps_term = "(Some (%s, %s, Err %s))" % (c_oN(enc_id), c_claims(after), c_exn(ecls(own[1])))
+        tok = r[1] if r[0] == "ok" else None
+        add("CEnc %s %s %s %s %s %s %s %s %s" % (
+            c_hdr(h0), c0_term, opts.targs(), c_oN(enc_id), dumps_term, tr_term,
+            c_res(r, c_blob), c_hdr(header), c_claims(claims)),
+            ("encode", tname, form, "encoder_cls=%s mode=%s" % (enc_id, mode), repr(h0), repr(c0)))
+        if r[0] != "ok":
+            dist["encode_err"] += 1
+            if applies and header_valid:
+                ctx.violation({"kind": "encode-raises", "transport_kind": kind},
+                              "jwt.encode raised %r for JSON-object claims %r, header %r (%s, %s, encoder_cls #%s, %s)" % (
+                                  r[1], c0, h0, tname, form, enc_id, mode), rp)
+            return
+        dist["encode_ok"] += 1
+        # ---- direct: claims object after the call (datetime exp/nbf/iat replaced in place, nothing else)
+        if applies and not (claims.keys() == exp_claims.keys() and all(json_equal(claims[k], exp_claims[k]) for k in claims)):
+            ctx.violation({"kind": "claims-after"}, "caller's claims after encode %r, expected %r" % (claims, exp_claims), rp)
+        # ---- decode (same optional arguments, the chosen decoder_cls)
+        value = tok.encode("ascii") if token_as_bytes else tok
+        d, drec, own = checked_decode(tok, key, opts, dec, tname, "roundtrip", rp=dict(rp, token=tok), value=value)
+        if drec is None or drec["out"][0] != "ok":
             dist["decode_err"] += 1
             ctx.violation({"kind": "roundtrip-decode-raises", "transport_kind": kind},
-                          "jwt.decode(jwt.encode(h, c, k), k) raised %r; h=%r c=%r (%s, %s)" % (d[1], h0, c0, tname, form),
+                          "jwt.decode(jwt.encode(h, c, k), k) raised %r; h=%r c=%r (%s, %s, %s)" % (d[1] if d[0] == "err" else None, h0, c0, tname, form, mode),
                           dict(rp, token=tok))
+            return
+        if d[0] != "ok":
+            dist["decode_err"] += 1
+            if dec[0] in (None, 1, 2):
+                ctx.violation({"kind": "roundtrip-decode-raises", "transport_kind": kind},
+                              "jwt.decode(jwt.encode(h, c, k), k) raised %r; h=%r c=%r (%s, %s, %s)" % (d[1], h0, c0, tname, form, mode),
+                              dict(rp, token=tok))
             return
         dist["decode_ok"] += 1
         t = d[1]
-        # ---- direct: claims equal as JSON to the (converted) claims
-        if not isinstance(t.claims, dict) or (applies and not json_equal(t.claims, exp_claims)):
+        # ---- direct: claims equal as JSON to the (converted) claims (standard decoders)
+        if not isinstance(t.claims, dict) or (applies and dec[0] in (None, 1, 2) and not json_equal(t.claims, exp_claims)):
             ctx.violation({"kind": "roundtrip-claims", "transport_kind": kind},
-                          "decoded claims %r differ from the encoded claims %r (%s, %s)" % (t.claims, exp_claims, tname, form),
-                          dict(rp, token=tok))
+                          "decoded claims %r differ from the encoded claims %r (%s, %s, encoder_cls #%s, decoder_cls #%s)" % (
+                              t.claims, exp_claims, tname, form, enc_id, dec[0]), dict(rp, token=tok))
         # ---- direct: header = given + default typ (+ kid of the key picked from a key set) (+ members of the algorithm)
         exp_h = {"typ": "JWT", **h0}
         got = dict(t.header)
@@ -717,7 +973,7 @@ def run(ctx):
                           "decoded header %r is not the given header %r plus typ default (%s; %s, %s)" % (t.header, h0, bad, tname, form),
                           dict(rp, token=tok))
         # ---- the contracts assumed by c09_typ / c09_rt, on the recorded calls
-        if rec is not None and drec is not None and drec["out"][0] == "ok":
+        if rec is not None:
             dist["contract_points_transport"] += 1
             w_in, w_after = list(rec["w_in"].items()), list(rec["w_after"].items())
             dh, dp = drec["out"][1]
@@ -729,17 +985,8 @@ def run(ctx):
                               "transport round trip contract fails: header in %r, after %r, decoded %r" % (rec["w_in"], rec["w_after"], dh),
                               dict(rp, token=tok))
 
-    def json_equal_hdr(a, b):
-        return a.keys() == b.keys() and all(json_equal(a[k], b[k]) for k in a)
-
-    def c_pv_safe(v):
-        try:
-            return c_pv(v)
-        except TypeError:
-            return "None"
-
     forms = ["key", "keyset", "callable", "callable-keyset"]
-    n_rt = ctx.scale(400, 6000)
+    n_rt = ctx.scale(420, 6000)
     combos = [(t, f) for t in W.transports for f in forms]
     for i in range(n_rt):
         tr_, form = combos[i % len(combos)] if i < 2 * len(combos) else rng.choice(combos)
@@ -747,15 +994,19 @@ def run(ctx):
         key, kids = W.key_form(fam, form)
         header, strict = gen_header(rng, base, kids, form)
         if i < len(combos):                     # every combination once with explicit typ and once without
-            header = {**base, "typ": "at+jwt"}
-            strict = True
+            header, strict = {**base, "typ": "at+jwt"}, True
         elif i < 2 * len(combos):
-            header = dict(base)
-            strict = True
+            header, strict = dict(base), True
         claims = gen_claims(rng)
-        one_roundtrip(tname, kind, base, fam, added, form, header, strict, claims, token_as_bytes=rng.random() < 0.3)
+        modes = modes_for(W, kind, base, strict)
+        mode = modes[i % len(modes)] if i < 3 * len(combos) else rng.choice(modes)
+        enc = ENCODERS[i % len(ENCODERS)] if i < 3 * len(combos) else rng.choice(ENCODERS)
+        dec = DECODERS[i % len(DECODERS)] if i < 3 * len(combos) else rng.choice(DECODERS + STD_DECODERS)
+        if rng.random() < 0.25:                # values only an encoder with default() can take
+            claims[rng.choice(["uid", "amount", "sub"])] = rng.choice([uuid.UUID(int=rng.getrandbits(128)), decimal.Decimal("1.50")])
+        one_roundtrip(tr_, form, header, strict, claims, rng.random() < 0.3, enc, dec, mode, positional=rng.random() < 0.25)
 
-    # a few directed claims sets on one cheap transport
+    # a few directed claims sets on one cheap JWS and one cheap JWE transport, with every encoder
     hs = W.transports[0]
     directed = [
         {}, {"a": {}}, {"a": []}, {"": ""}, {"exp": datetime.datetime(2030, 1, 1, tzinfo=UTC), "nbf": datetime.datetime(2020, 1, 1),
@@ -763,46 +1014,52 @@ def run(ctx):
         {"f": -0.0, "g": 1e308, "h": 5e-324, "i": 2 ** 70, "j": -2 ** 70, "k": 2 ** 53 + 1},
         {"s": "\U0001F600é\\u0041\"\n\x00", "t": ["\U0010FFFF", {"\U0001F511": None}]},
         {"deep": [[[[[1, {"a": [True, None, 1.5]}]]]]]},
-        {"x": datetime.datetime(2030, 1, 1)},            # datetime elsewhere: TypeError from json.dumps
+        {"x": datetime.datetime(2030, 1, 1)},            # datetime elsewhere: TypeError unless the encoder has default()
         {"exp": datetime.datetime(2030, 1, 1), "auth_time": datetime.datetime(2030, 1, 1)},   # exp replaced, then TypeError
         {"exp": datetime.datetime(1, 1, 1, tzinfo=tz(hours=1)), "iat": datetime.datetime(2030, 1, 1)},   # OverflowError at exp
         {"iat": datetime.datetime(2030, 1, 1), "nbf": datetime.datetime(9999, 12, 31, 23, 59, 59, tzinfo=tz(hours=-1))},
         {"b": b"bytes"}, {"lone": "\ud800"}, {"nan": float("nan")}, {"inf": float("inf")},
         {"exp": True, "nbf": None, "iat": "2030-01-01"},
+        {"uid": uuid.UUID(int=7), "amount": decimal.Decimal("12.30"), "sub": "a"},
     ]
+    n = 0
     for c in directed:
         for tr_ in (hs, W.transports[6]):
-            tname, kind, base, fam, added = tr_
-            one_roundtrip(tname, kind, base, fam, added, "key", dict(base), True, dict(c), False)
+            for enc in ENCODERS:
+                n += 1
+                one_roundtrip(tr_, "key", dict(tr_[2]), True, dict(c), False, enc, DECODERS[n % len(DECODERS)],
+                              ["reg", "algs", "both", "reg-nondefault"][n % 4], positional=n % 3 == 0)
     # headers that the transport refuses: the caller's header must still be untouched
     for h in ({"alg": "HS256", "typ": 1}, {"alg": "HS256", "crit": ["exp"]}, {"alg": "nope"}, {"typ": "JWT"},
               {"alg": "HS256", "unregistered": 1}, {"alg": "HS256", "kid": ""}):
-        one_roundtrip("HS256", "jws", {"alg": "HS256"}, "oct32", (), rng.choice(["key", "keyset"]), dict(h), True, {"a": 1}, False,
-                      header_valid=False)
+        one_roundtrip(hs, rng.choice(["key", "keyset"]), dict(h), True, {"a": 1}, False, ENCODERS[0], DECODERS[0], "reg",
+                      positional=False, header_valid=False)
 
     # ---------------------------------------------------------------- convert_claims / NumericDate sweep
-    def one_convert(c):
+    def one_convert(c, enc):
+        enc_id, enc_cls = enc
         c0 = dict(c)
         c0_term = c_claims(c)
         exp = expected_claims(c0)
-        r = call(convert_claims, c)
-        ctx.note_case(("conv", repr(c0)))
+        after = expected_after(c0)
+        r = call(convert_claims, c, enc_cls) if enc_cls is not None else call(convert_claims, c)
+        ctx.note_case(("conv", repr(c0), enc_id))
         dist["convert"] += 1
         dumps_term = "None"
-        if exp is not None and r[0] == "ok":
+        if after is not None and r[0] == "ok":
             lr = call(json.loads, r[1])
-            if is_json_value(exp) and (lr[0] != "ok" or not json_equal(lr[1], exp)):
+            if exp is not None and is_json_value(exp) and (lr[0] != "ok" or not json_equal(lr[1], exp)):
                 ctx.violation({"kind": "numericdate" if any(isinstance(v, datetime.datetime) for v in c0.values()) else "payload-not-claims"},
                               "convert_claims(%r) = %r, expected the JSON of %r" % (c0, r[1][:200], exp),
                               {"kind": "convert", "claims": repr(c0)})
-            dumps_term = "(Some (%s, Ok %s))" % (c_pv(exp), c_blob(r[1]))
-        elif exp is not None:
-            own = call(lambda: json.dumps(exp, ensure_ascii=False, separators=(",", ":")).encode("utf-8"))
-            if own[0] == "err" and c_pv_safe(exp) != "None":
-                dumps_term = "(Some (%s, Err %s))" % (c_pv(exp), c_exn(ecls(own[1])))
+            dumps_term = "(Some (%s, %s, Ok %s))" % (c_oN(enc_id), c_claims(after), c_blob(r[1]))
+        elif after is not None:
+            own = call(lambda: json.dumps(after, ensure_ascii=False, separators=(",", ":"), cls=enc_cls).encode("utf-8"))
+            if own[0] == "err":
+                dumps_term = "(Some (%s, %s, Err %s))" % (c_oN(enc_id), c_claims(after), c_exn(ecls(own[1])))
             else:
                 ctx.violation({"kind": "convert-raises"}, "convert_claims(%r) raised %r" % (c0, r[1]), {"kind": "convert", "claims": repr(c0)})
-        add("CConv %s %s %s %s" % (c0_term, dumps_term, c_res(r, c_blob), c_claims(c)), ("convert", repr(c0)))
+        add("CConv %s %s %s %s %s" % (c0_term, c_oN(enc_id), dumps_term, c_res(r, c_blob), c_claims(c)), ("convert", repr(c0), enc_id))
 
     def one_nd(dt, k):
         c = {k: dt}
@@ -845,19 +1102,23 @@ def run(ctx):
             one_nd(datetime.datetime(d.year, d.month, d.day, rng.choice([0, 23]), rng.choice([0, 59]), rng.choice([0, 59]),
                                      rng.choice([0, 999999]), tzinfo=z), "exp")
             d += TD(days=1)
-    for _ in range(ctx.scale(200, 4000)):
-        one_convert(gen_claims(rng))
+    for i in range(ctx.scale(200, 4000)):
+        one_convert(gen_claims(rng), ENCODERS[i % len(ENCODERS)])
     for c in directed:
-        one_convert(dict(c))
+        for enc in ENCODERS:
+            one_convert(dict(c), enc)
 
     # ---------------------------------------------------------------- payloads that are not a JSON object
     deep = 200000
+    OBJECTS = [b'{"sub":"alice","admin":false}', b"{}", b'{"a":{"b":[1,2.5,{"c":null}]},"n":12345678901234567890}', b'{"f":1.5,"g":[{"h":{}}]}']
     NON_OBJECT = [b"[1,2]", b'"x"', b"1", b"1.5", b"true", b"false", b"null", b"[]", b'[{"a":1}]', b'""', b"0", b"-1",
-                  b"1e5", b" [1] ", b'"{}"', b"[" * 50 + b"]" * 50, b"[[1,2],{}]", b"-0.0", b'"\\u007b\\u007d"']
+                  b"1e5", b" [1] ", b'"{}"', b"[" * 50 + b"]" * 50, b"[[1,2],{}]", b"-0.0", b'"\\u007b\\u007d"',
+                  b"[1,2,3]", b'"str"', b"42", b'[{"sub":"admin"}]']
     NON_JSON = [b"", b"\xff\xfe", b"\xfe\xff", b"\xef\xbb\xbf", b'{"a":"\xc3"}', b'{"a":"\xe2\x82"}', b'{"a":1', b'{"a":1}}',
                 b"{'a':1}", b'{"a":1,}', b"{a:1}", b"\x00", b"not json", b'{"a":1} x', b"\xc3\x28", b'{"a":01}', b'{"a":+1}',
                 b'{"a":"\x01"}', b'{"a":"\\x"}', b"{,}", b'{"a" 1}', b"{" * 30, b"[" * deep, b'{"a":' * deep, b"\xf0\x9f\x98",
                 b"\xff", b'["a",', b"tru", b"nul", b".5", b"1.", b'{"a":1}\x00']
+    n_fixed_obj, n_fixed_json = len(NON_OBJECT), len(NON_JSON)
     for _ in range(ctx.scale(40, 400)):
         NON_JSON.append(bytes(rng.randrange(256) for _ in range(rng.randrange(1, 24))))
         v = gen_value(rng, 2, 4)
@@ -866,75 +1127,67 @@ def run(ctx):
             if not any(t in s for t in ("NaN", "Infinity")):
                 NON_OBJECT.append(s.encode("utf-8"))
     neg_transports = [W.transports[0], W.transports[3], W.transports[6], W.transports[7]] if ctx.quick else W.transports
+    full_transports = (W.transports[0], W.transports[6])       # every decoder_cls on one JWS and one JWE transport
     bad_tokens = []
+    counter = [0]
 
     def build(tr_, payload, key):
         tname, kind, base, fam, added = tr_
         reg = W.registry(kind, base, True)
         h = {**base, "typ": "JWT"}
         if kind == "jws":
-            return jws.serialize_compact(h, payload, key, registry=reg), reg
-        return jwe.encrypt_compact(h, payload, key, registry=reg), reg
+            return jws.serialize_compact(h, payload, key, registry=reg)
+        return jwe.encrypt_compact(h, payload, key, registry=reg)
 
-    def one_payload(tr_, payload, is_json, ambiguous=False):
+    def next_opts(tr_):
+        counter[0] += 1
+        modes = modes_for(W, tr_[1], tr_[2], True)
+        return Options(W, tr_[1], tr_[2], modes[counter[0] % len(modes)], True, positional=counter[0] % 4 == 0)
+
+    def one_payload(tr_, payload, cls, dec):
+        """cls: 'object' | 'non-object' | 'non-json' | 'ambiguous'"""
         tname, kind, base, fam, added = tr_
         key = W.keys[fam][0]
         try:
-            if isinstance(json.loads(payload), dict) and not ambiguous:
+            if isinstance(json.loads(payload), dict) and cls in ("non-object", "non-json"):
                 return              # random octets that happen to be an object
         except (ValueError, RecursionError):
             pass
-        tok, reg = build(tr_, payload, key)
-        with Recorder() as R:
-            d = call(jwt.decode, tok, key, registry=reg)
-            dec_calls = R.take()
-        ctx.note_case(("payload", tname, payload[:64], len(payload)))
-        dist["ambiguous_payload" if ambiguous else "non_object_payload" if is_json else "non_json_payload"] += 1
-        drec = dec_calls[0] if dec_calls else None
-        if drec is not None and drec["out"][0] == "ok":
-            lterm, _ = loads_record(drec["out"][1][1])
-            add("CDec %s %s (Some (%s, %s)) %s" % (
-                c_blob(tok),
-                "(Ok (%s, %s))" % (c_hdr(drec["out"][1][0]), c_blob(drec["out"][1][1])),
-                c_blob(drec["out"][1][1]), lterm,
-                c_res(d, lambda t: "(%s, %s)" % (c_hdr(t.header), c_pv(t.claims)))),
-                ("decode-payload", tname, payload[:64]))
-        else:
-            add("CDec %s (Err EOracleMiss) None %s" % (c_blob(tok), c_res(d, lambda t: "(%s, %s)" % (c_hdr(t.header), c_pv(t.claims)))),
-                ("decode-payload-transport-not-reached", tname, payload[:64]))
-        if ambiguous:
-            # only: whatever comes back is an object
-            if d[0] == "ok" and not isinstance(d[1].claims, dict):
-                ctx.violation({"kind": "non-object-payload-accepted", "payload_is_json": True, "transport_kind": kind},
-                              "jwt.decode returned claims %r that are not an object" % (d[1].claims,),
-                              {"kind": "payload", "transport": tname, "payload_hex": payload.hex()})
-            return
-        if not (d[0] == "err" and isinstance(d[1], InvalidPayloadError)):
-            what = "returned claims %r" % (d[1].claims,) if d[0] == "ok" else "raised %r" % (d[1],)
-            ctx.violation({"kind": "non-object-payload-accepted" if d[0] == "ok" else "invalid-payload-error-class",
-                           "payload_is_json": bool(is_json), "transport_kind": kind},
-                          "jwt.decode of a %s token whose payload is %s %s instead of raising InvalidPayloadError" % (
-                              tname, ("the JSON non-object %r" % payload[:60]) if is_json else ("not JSON (%r, %d octets)" % (payload[:40], len(payload))), what),
-                          {"kind": "payload", "transport": tname, "payload_hex": payload.hex() if len(payload) < 4000 else None,
-                           "payload_head_hex": payload[:64].hex(), "payload_len": len(payload),
-                           "payload_repeat": [payload[:5].hex(), len(payload) // 5] if len(payload) >= 4000 else None})
-        if len(payload) < 4000:
-            bad_tokens.append((tr_, tok, payload, reg))
+        tok = build(tr_, payload, key)
+        opts = next_opts(tr_)
+        rp = {"kind": "payload", "payload_hex": payload.hex() if len(payload) < 4000 else None,
+              "payload_head_hex": payload[:64].hex(), "payload_len": len(payload),
+              "payload_repeat": [payload[:5].hex(), len(payload) // 5] if len(payload) >= 4000 else None}
+        ctx.note_case(("payload", tname, payload[:64], len(payload), dec[0], opts.mode))
+        if cls != "object":
+            dist[{"non-object": "non_object_payload", "non-json": "non_json_payload", "ambiguous": "ambiguous_payload"}[cls]] += 1
+        d, drec, own = checked_decode(tok, key, opts, dec, tname, "payload-" + cls, rp=rp)
+        if len(payload) < 4000 and dec[0] is None:
+            bad_tokens.append((tr_, tok, payload))
 
     for tr_ in neg_transports:
-        for p in NON_OBJECT:
-            one_payload(tr_, p, True)
-        for p in NON_JSON:
-            if len(p) > 100000 and tr_ is not neg_transports[0] and tr_ is not neg_transports[2]:
+        full = tr_ in full_transports
+        for j, p in enumerate(OBJECTS):
+            for dec in (DECODERS if full else [DECODERS[j % len(DECODERS)]]):
+                one_payload(tr_, p, "object", dec)
+        for j, p in enumerate(NON_OBJECT):
+            decs = DECODERS if (full and j < n_fixed_obj) else [DECODERS[0], DECODERS[1 + j % (len(DECODERS) - 1)]]
+            for dec in decs:
+                one_payload(tr_, p, "non-object", dec)
+        for j, p in enumerate(NON_JSON):
+            if len(p) > 100000 and not full:
                 continue
-            one_payload(tr_, p, False)
+            decs = DECODERS if (full and j < n_fixed_json and len(p) < 100000) else [DECODERS[0], DECODERS[1 + j % (len(DECODERS) - 1)]]
+            for dec in decs:
+                one_payload(tr_, p, "non-json", dec)
 
-    # accepted by json.loads although not RFC 8259 JSON text / not UTF-8: followed by the model only
+    # accepted by json.loads although not RFC 8259 JSON text / not UTF-8: the decoder's own verdict decides
     AMBIGUOUS = ['{"a":1}'.encode("utf-16"), '{"a":1}'.encode("utf-32-le"), b'\xef\xbb\xbf{"a":1}', b'{"a":NaN}', b'{"a":-Infinity}',
                  b'{"a":"\xed\xa0\x80"}', b'{"a":1,"a":2}', b' {"a":1}\n', b'[NaN]', '[1]'.encode("utf-16"), b'{"a":1e999}']
-    for tr_ in (W.transports[0], W.transports[6]):
-        for p in AMBIGUOUS:
-            one_payload(tr_, p, True, ambiguous=True)
+    for tr_ in full_transports:
+        for j, p in enumerate(AMBIGUOUS):
+            for dec in (DECODERS[0], DECODERS[1 + j % (len(DECODERS) - 1)]):
+                one_payload(tr_, p, "ambiguous", dec)
 
     # ---------------------------------------------------------------- integrity first: tampered tokens, wrong keys
     ALPHA = "ABCDEFGHIJKLMNOPQRSTUVWXYZabcdefghijklmnopqrstuvwxyz0123456789-_"
@@ -959,12 +1212,7 @@ def run(ctx):
         else:
             for idx, name in ((4, "tag"), (3, "ciphertext"), (2, "iv"), (1, "encrypted-key")):
                 seg = parts[idx]
-                if not seg:
-                    if idx == 3:
-                        continue
-                    if idx == 1:
-                        continue
-                else:
+                if seg:
                     q = list(parts)
                     q[idx] = other_char(seg[0]) + seg[1:]
                     out.append((name, ".".join(q)))
@@ -975,53 +1223,34 @@ def run(ctx):
             out.append(("header-swapped", ".".join(q)))
         return out
 
-    # tokens with a proper JSON-object payload as well
-    for tr_ in neg_transports:
-        key = W.keys[tr_[3]][0]
-        tok, reg = build(tr_, b'{"sub":"alice","admin":false}', key)
-        bad_tokens.append((tr_, tok, b'{"sub":"alice","admin":false}', reg))
-    sel = [bt for i, bt in enumerate(bad_tokens) if i % 3 == 0 or i >= len(bad_tokens) - len(neg_transports)]
+    sel = [bt for i, bt in enumerate(bad_tokens) if i % 3 == 0 or bt[2] in OBJECTS]
     if len(sel) > 3000:
-        sel = rng.sample(sel[:-len(neg_transports)], 3000) + sel[-len(neg_transports):]
-    for tr_, tok, payload, reg in sel:
+        sel = rng.sample(sel, 3000)
+    nt = 0
+    for tr_, tok, payload in sel:
         tname, kind, base, fam, added = tr_
         key = W.keys[fam][0]
         for what, tt in tamper(tok, kind):
-            with Recorder() as R:
-                d = call(jwt.decode, tt, key, registry=reg)
-                dec_calls = R.take()
-            ctx.note_case(("tamper", tname, what, tt[-40:]))
+            nt += 1
             dist["tampered"] += 1
-            drec = dec_calls[0] if dec_calls else None
-            if drec is not None and drec["out"][0] == "err":
-                add("CDec %s %s None %s" % (c_blob(tt), c_res(drec["out"], lambda x: "x"),
-                                            c_res(d, lambda t: "(%s, %s)" % (c_hdr(t.header), c_pv(t.claims)))),
-                    ("decode-tampered", tname, what))
-            if d[0] == "ok" or isinstance(d[1], InvalidPayloadError):
-                ctx.violation({"kind": "payload-parsed-before-integrity" if d[0] == "err" else "tampered-token-accepted",
-                               "transport_kind": kind},
-                              "jwt.decode of a %s token with tampered %s %s (the payload must not be looked at before the integrity check passed)" % (
-                                  tname, what, "returned claims %r" % (d[1].claims,) if d[0] == "ok" else "raised InvalidPayloadError"),
-                              {"kind": "tamper", "transport": tname, "what": what, "token": tt, "original": tok,
-                               "payload_hex": payload.hex(), "jwk": key.as_dict(private=True)})
+            ctx.note_case(("tamper", tname, what, tt[-40:]))
+            checked_decode(tt, key, next_opts(tr_), DECODERS[nt % len(DECODERS)], tname, "tampered-" + what,
+                           rp={"kind": "tamper", "what": what, "token": tt, "original": tok, "payload_hex": payload.hex(),
+                               "jwk": key.as_dict(private=True)})
         if len(W.keys[fam]) > 1:
             wrong = W.keys[fam][1]
-            d = call(jwt.decode, tok, wrong, registry=reg)
+            nt += 1
             dist["wrong_key"] += 1
             ctx.note_case(("wrongkey", tname, tok[-40:]))
-            if d[0] == "ok" or isinstance(d[1], InvalidPayloadError):
-                ctx.violation({"kind": "payload-parsed-before-integrity" if d[0] == "err" else "tampered-token-accepted",
-                               "transport_kind": kind},
-                              "jwt.decode of a %s token with the wrong key %s" % (
-                                  tname, "returned claims" if d[0] == "ok" else "raised InvalidPayloadError"),
-                              {"kind": "wrong-key", "transport": tname, "token": tok, "payload_hex": payload.hex(),
-                               "jwk": wrong.as_dict(private=True)})
+            checked_decode(tok, wrong, next_opts(tr_), DECODERS[nt % len(DECODERS)], tname, "wrong-key",
+                           rp={"kind": "wrong-key", "token": tok, "payload_hex": payload.hex(), "jwk": wrong.as_dict(private=True)})
 
     # ---------------------------------------------------------------- correspondence
-    ctx.coverage["rule"] = ("model C09Jwt.encode/decode/convert_claims/numericdate evaluated by vm_compute on every recorded "
-                            "call (transport and JSON codec instantiated by the recorded call) must reproduce the outcome, "
-                            "the caller's header and the caller's claims of the implementation; independently the property "
-                            "is checked on the implementation's outputs")
+    ctx.coverage["rule"] = ("model C09Jwt.jwt_encode/jwt_decode/convert_claims/numericdate evaluated by vm_compute on every recorded "
+                            "call (transport functions and JSON codec instantiated by the recorded call: which transport function, "
+                            "its key/algorithms/registry arguments, header, payload; encoder_cls/decoder_cls) must reproduce the "
+                            "outcome, the caller's header and the caller's claims of the implementation; independently the property "
+                            "is checked on the implementation's outputs for every encoder_cls/decoder_cls/algorithms/registry choice")
     ctx.coverage["input_distribution"] = dist
     for i in (0, len(cases) // 3, len(cases) // 2, len(cases) - 1):
         if cases:
@@ -1050,13 +1279,15 @@ def run(ctx):
                       {"log": log[-3000:], "no_failing_input_found": direct == 0 and not res["failing"],
                        "broken": "theorems of props/C09.v"})
     ctx.assumptions += [
-        "the JWS/JWE transport is a Section variable with the round-trip contract transport_rt (what C03/C04 establish); "
-        "checked here on every recorded encode/decode pair (contract_points_transport)",
-        "json.dumps(ensure_ascii=False)+UTF-8 / json.loads are Section variables with contract json_rt; checked on every "
-        "recorded payload (contract_points_json); float repr round trip and UTF-8 are CPython's",
+        "the JWS/JWE transport functions are Section variables with the round-trip contract transport_rt (what C03/C04 "
+        "establish); checked here on every recorded encode/decode pair (contract_points_transport)",
+        "json.dumps(cls=encoder_cls)+UTF-8 / json.loads(cls=decoder_cls) are Section variables indexed by the class; the object-only, "
+        "integrity-first and header-unchanged theorems assume NOTHING about them; only the round-trip theorem assumes json_rt for the "
+        "pair in use; checked on every recorded payload (contract_points_json); float repr round trip and UTF-8 are CPython's",
         "datetime.utctimetuple() normalisation (self - utcoffset, re-split into fields) is folded into numericdate as "
         "local_secs - offset with the MINYEAR..MAXYEAR range check; validated by the differential run only",
-        "utcoffset() with a sub-second part, tzinfo subclasses with DST/fold, encoder_cls/decoder_cls are outside the model",
+        "utcoffset() with a sub-second part and tzinfo subclasses with DST/fold are outside the model; decoder results that are not "
+        "JSON-ish Python values (custom classes) are outside the value universe of the model",
         "payloads that json.loads accepts beyond RFC 8259 (UTF-16/32 encodings, BOM, NaN/Infinity literals, duplicate names) "
         "are treated as JSON, as the implementation's parser defines it",
     ]
@@ -1097,14 +1328,18 @@ def replay(path):
         c = eval(r["claims"], env)
         h0, exp = copy.deepcopy(h), expected_claims(dict(c))
         reg = W.registry(kind_, base, r.get("strict", True))
-        e = call(jwt.encode, h, c, key, registry=reg)
+        enc_cls = dict(ENCODERS).get(r.get("encoder_cls"))
+        dec_cls = dict(DECODERS).get(r.get("decoder_cls"))
+        e = call(jwt.encode, h, c, key, registry=reg, encoder_cls=enc_cls)
         print("encode ->", e, "header after:", h)
         if h != h0 or list(h.items()) != list(h0.items()):
             return 1
         if e[0] != "ok":
             return 1
-        d = call(jwt.decode, e[1], key, registry=reg)
+        d = call(jwt.decode, e[1], key, registry=reg, decoder_cls=dec_cls)
         print("decode ->", d if d[0] == "err" else (d[1].header, d[1].claims), "expected claims", exp)
+        if r.get("decoder_cls") not in (None, 1, 2):
+            return 0 if (d[0] == "ok" and isinstance(d[1].claims, dict)) or (d[0] == "err" and isinstance(d[1], InvalidPayloadError)) else 1
         if d[0] != "ok" or exp is None or not json_equal(d[1].claims, exp):
             return 1
         got = {k: v for k, v in d[1].header.items() if k in h0 or k == "typ"}
@@ -1119,15 +1354,22 @@ def replay(path):
         reg = W.registry(kind_, base, True)
         h = {**base, "typ": "JWT"}
         tok = jws.serialize_compact(h, p, key, registry=reg) if kind_ == "jws" else jwe.encrypt_compact(h, p, key, registry=reg)
-        d = call(jwt.decode, tok, key, registry=reg)
-        print("decode ->", d if d[0] == "err" else ("claims", d[1].claims))
+        dec_cls = dict(DECODERS).get(r.get("decoder_cls"))
+        d = call(jwt.decode, tok, key, registry=reg, decoder_cls=dec_cls)
+        print("decode (decoder_cls=%r) ->" % (dec_cls,), d if d[0] == "err" else ("claims", d[1].claims))
+        try:
+            own = json.loads(p, cls=dec_cls)
+        except (ValueError, TypeError, RecursionError):
+            own = None
+        if isinstance(own, dict):
+            return 0 if d[0] == "ok" and d[1].claims == own else 1
         return 0 if d[0] == "err" and isinstance(d[1], InvalidPayloadError) else 1
     if kind in ("tamper", "wrong-key"):
         from joserfc.jwk import JWKRegistry
         tname, kind_, base, fam, added = tr[r["transport"]]
         key = JWKRegistry.import_key(r["jwk"])
         reg = W.registry(kind_, base, True)
-        d = call(jwt.decode, r["token"], key, registry=reg)
+        d = call(jwt.decode, r["token"], key, registry=reg, decoder_cls=dict(DECODERS).get(r.get("decoder_cls")))
         print("decode ->", d if d[0] == "err" else ("claims", d[1].claims))
         return 1 if d[0] == "ok" or isinstance(d[1], InvalidPayloadError) else 0
     print("see the replay file for the failing case")
